@@ -113,7 +113,7 @@ def chunk_code(c, d):
     total = year_len(c.y0) // tfsec
     raw = []
     for i in range(1, d.ni0 + 1):
-        idx = c.elapsed[i - 1] // tfsec + (0 if tfsec == 86400 else 1)
+        idx = (c.iv_epoch(i) - store.year_start(c.y0)) // tfsec + (0 if tfsec == 86400 else 1)
         raw.append((total - idx) // RECORDS_PER_READ)
     ranks = {v: k for k, v in enumerate(sorted(set(raw)))}
     code = 0
